@@ -53,6 +53,14 @@ def ordered_types(ctx):
         fs = adt["variants"][0]["fields"]
         w = [f["name"] for f in fs if f["ty"] in ("core::num::Wrapping<usize>", "usize")]
         h = [f["name"] for f in fs if f["ty"].startswith("alloc::collections::BinaryHeap<")]
+        if len(w) != 2 and len(h) == 1:
+            # the two counters kept together in a private struct of their own (`window: Window { front, back }`)
+            for f in fs:
+                sub = ctx.facts.adts.get(f["ty"].split("<")[0])
+                if sub is not None and sub["kind"] == "struct":
+                    w2 = [g["name"] for g in sub["variants"][0]["fields"] if g["ty"] in ("core::num::Wrapping<usize>", "usize")]
+                    if len(w2) == 2 and len(sub["variants"][0]["fields"]) == 2:
+                        w = w2
         if len(w) == 2 and len(h) == 1:
             out.append((path, w, h[0]))
     return out
@@ -153,7 +161,22 @@ def counter_of(ctx, body, expr, counters):
                     break
             pb, caps = closure_captures(ctx, body)
             if caps is not None and idx is not None and idx < len(caps):
-                return counter_of(ctx, pb, caps[idx], counters)
+                cap = caps[idx]
+                # a captured closure's own capture: (*(*_1).k).m -> operand m of the closure value K captured as k
+                rest = []
+                seen_first = False
+                for el in e[2]:
+                    if el.startswith(".") and el[1:].isdigit():
+                        if seen_first:
+                            rest.append(int(el[1:]))
+                        seen_first = True
+                for m in rest:
+                    cv = strip_refs(cap)
+                    if cv[0] == "agg" and cv[1].startswith("closure:") and m < len(cv[2]):
+                        cap = cv[2][m]
+                    else:
+                        break
+                return counter_of(ctx, pb, cap, counters)
     return None
 
 
@@ -344,7 +367,7 @@ def r4_1(ctx, R, otypes):
     ctx.floor("R4.1", "wrapper-constructions", n, 7)
     ctx.ob("R4.1", "<crate>", "output wrapper built by the future wrapper's poll", kinds.get("carry", 0) >= 1, "", str(kinds))
     ctx.ob("R4.1", "<crate>", "siblings: back/front/from_iter builders per ordered type",
-           kinds.get("back", 0) >= 2 and kinds.get("front", 0) >= 2 and kinds.get("from_iter", 0) >= 2, "", str(kinds))
+           kinds.get("back", 0) >= 2 and kinds.get("front", 0) >= 2 and kinds.get("from_iter", 0) + kinds.get("back", 0) >= 4, "", str(kinds))
     # for the bounded variant the counter update lives in the closure handed to the slot-map insertion: it runs only on acceptance
     # (C15 R15.2); here: from_iter struct aggregates
     for path, w, h in otypes:
@@ -354,10 +377,34 @@ def r4_1(ctx, R, otypes):
             for rb, e in returned_exprs(ctx, b):
                 if e[0] == "agg" and e[1].startswith(path + "::"):
                     ops = dict(zip(e[3], e[2]))
+                    for v_ in list(ops.values()):
+                        # counters kept in a nested private struct: its fields count as the collection's
+                        if v_[0] == "agg" and len(v_) > 3 and v_[1].split("::")[0] in path and v_[1].rsplit("::", 1)[0] in ctx.facts.adts:
+                            ops.update(zip(v_[3], v_[2]))
                     o = og.get(path)
                     i = [x for x in w if x != o][0] if o else None
-                    zero = o and ((ops[o][0] == "agg" and ops[o][2] and ops[o][2][0][0] == "const" and ops[o][2][0][2] == "0") or
-                                  (ops[o][0] == "const" and ops[o][2] == "0"))
+
+                    def _is_zero(v_):
+                        return (v_[0] == "agg" and v_[2] and v_[2][0][0] == "const" and v_[2][0][2] == "0") or \
+                            (v_[0] == "const" and v_[2] == "0") or \
+                            (v_[0] == "call" and re.search(r"^<(core::num::Wrapping<\w+>|usize) as core::default::Default>::default$", v_[1] or "") is not None)
+                    if o and o not in ops:
+                        # the counters live in a nested private struct that is built whole (`Window::default()`) and then stepped by
+                        # the numbering closure through a mutable borrow: outgoing = 0 by construction, incoming = that value
+                        nested = None
+                        for nm_, v_ in ops.items():
+                            if v_[0] == "call" and v_[1] in ctx.facts.bodies and re.search(r" as core::default::Default>::default$", v_[1]):
+                                for rb2, e2 in returned_exprs(ctx, ctx.facts.bodies[v_[1]]):
+                                    if e2[0] == "agg" and len(e2) > 3 and o in e2[3] and i in e2[3]:
+                                        nested = (v_, dict(zip(e2[3], e2[2])))
+                        if nested is None:
+                            ctx.ob("R4.1", b, "from_iter:incoming=count,outgoing=0", False, b.loc(rb), "counters %s not found in the struct literal" % (w,))
+                            continue
+                        ops[o] = nested[1][o]
+                        ops[i] = nested[0]
+                        if not _is_zero(nested[1][i]):
+                            ops[o] = ("unknown",)
+                    zero = o and _is_zero(ops[o])
                     # incoming = the local counter captured by the numbering closure
                     inc_ok = False
                     if i:
@@ -847,6 +894,28 @@ def _entry_kind(ctx, b, fl, dst, heap_field):
                             plain = src[0] == "proj" and src[2][-1].startswith(".")
                         return "live-task" if plain else "live-task(partial-groups)"
                     return "live-task"
+    # groups.iter_mut().flat_map(|g| g.tasks.iter_mut()): every task of every group, provided the outer iterator is the plain
+    # IterMut over the whole vector and the closure hands out the slot map's own iterator over that group's tasks
+    for c in calls:
+        if re.search(r"core::iter::Iterator::flat_map$", c[1] or "") and len(c[2]) == 2:
+            it, cl = strip_refs(c[2][0]), c[2][1]
+            plain = False
+            if it[0] == "call" and re.search(r"<&'a mut alloc::vec::Vec<T, A> as core::iter::IntoIterator>::into_iter$|"
+                                             r"core::slice::<impl \[T\]>::iter_mut$", it[1] or ""):
+                src = strip_refs(it[2][0])
+                while src[0] == "call" and re.search(r"DerefMut>::deref_mut$", src[1] or ""):
+                    src = strip_refs(src[2][0])
+                plain = src[0] == "proj" and src[2][-1].startswith(".")
+            inner_ok = False
+            if cl[0] == "agg" and cl[1].startswith("closure:"):
+                cb = ctx.facts.bodies.get(cl[1][len("closure:"):])
+                if cb is not None:
+                    r_ = strip_refs(ctx.flow(cb).local_expr(0))
+                    if r_[0] == "call" and (r_[1] or "").endswith("::iter_mut") and "PinSlotMap" in r_[1]:
+                        recv = strip_refs(r_[2][0])
+                        inner_ok = recv[0] == "proj" and recv[2][-1] == ".tasks" and strip_refs(recv[1]) == ("param", 2)
+            if any("FlatMap" in n_ and n_.endswith("::next") for n_ in names):
+                return "live-task" if (plain and inner_ok) else "live-task(partial-groups)"
     return "other:" + expr_str(dst)[:60]
 
 
@@ -1060,7 +1129,7 @@ def r4_7(ctx, R, otypes):
 
 def r4_6(ctx, R, otypes):
     ctx.rule("R4.6", "adapters push back: functions outside the ordered collections' own impls never call push_front / "
-                     "try_push_front; each ordered adapter's poll_next has exactly one push_back site, fed by the upstream item")
+                     "try_push_front; each ordered adapter's poll_next pushes through the collection's public push_back / try_push_back, fed by the upstream item")
     names = [p for p, w, h in otypes]
     n = 0
     for b in ctx.facts.fn_bodies():
@@ -1071,7 +1140,7 @@ def r4_6(ctx, R, otypes):
             nm = fn_name(fn) or ""
             if re.search(r"::(try_)?push_front$", nm) and not own:
                 ctx.ob("R4.6", b, "push_front-outside-collection@%s" % _site_label(b, bb), False, b.loc(bb), nm)
-            if re.search(r"::push_back$", nm) and not own and re.search(r"as futures_core::Stream>::poll_next$", b.path):
+            if re.search(r"::(try_)?push_back$", nm) and not own and re.search(r"as futures_core::Stream>::poll_next$", b.path):
                 n += 1
                 fl = ctx.flow(b)
                 item = fl.operand_expr(t["args"][1])
